@@ -3,7 +3,10 @@ use crate::push::instructions::InstructionCache;
 use crate::push::random::CodeGenerator;
 use crate::push::state::PushState;
 use crate::push::state::*;
+#[cfg(not(feature = "verif"))]
 use std::collections::HashMap;
+#[cfg(feature = "verif")]
+use crate::push::verif_seam::DetMap as HashMap;
 
 /// For creating bindings between symbolic identifiers and values of various types; that is,
 /// for implementing (global) variables and defined instructions. Bindings are created with
